@@ -332,6 +332,23 @@ func c08r2(c *an.Ctx) {
 // varintConsts reads the structural constants out of the varint functions.
 func varintConsts(fn *ssa.Function) map[string]int64 {
 	out := map[string]int64{}
+	// an encoder that delegates to encoding/binary's unsigned varint (documented format: little-endian
+	// base-128 groups, continuation bit 0x80) has that library's constants
+	delegated := false
+	an.Instrs(fn, func(in ssa.Instruction) {
+		if call, ok := in.(*ssa.Call); ok {
+			if obj := an.CalleeObj(call.Common()); obj != nil && (obj.FullName() == "encoding/binary.AppendUvarint" || obj.FullName() == "encoding/binary.PutUvarint") {
+				for _, a := range call.Common().Args {
+					if len(fn.Params) >= 2 && a == ssa.Value(fn.Params[1]) {
+						delegated = true
+					}
+				}
+			}
+		}
+	})
+	if delegated {
+		return map[string]int64{"shift": 7, "mask": 127, "cont": 128, "more": 128}
+	}
 	an.Instrs(fn, func(in ssa.Instruction) {
 		b, ok := in.(*ssa.BinOp)
 		if !ok {
